@@ -1,6 +1,9 @@
 # edited by hand as checks land
 _T = "Every listed obligation is decided by z3 over all integer values of its symbolic inputs within the stated skeleton bound (a bounded, not an unbounded, claim); "
 CLAIMED = {
+ "C16": ("DESIGN.md#c16", _T + "headers, stamp order, one row per access, coordinates and fiber positions of iter/intersect/populate/project traces against accesses observed by the harness and an independent two-finger merge; file content equals in-memory rows for every flush threshold."),
+ "C15": ("DESIGN.md#c15", _T + "kernel outputs identical with collection on and off; multiply/add/update counts and iter-trace row counts equal what the loop bodies executed; a fresh session after an earlier one equals a cold run (counts and consumable traces)."),
+ "C06": ("DESIGN.md#c06", _T + "output content of dot, matrix-vector, matrix-matrix, elementwise and reduction kernels equals the dense result for every implemented loop order, tiling and intersection style, one operand symbolic (all sparsity patterns)."),
  "C14": ("DESIGN.md#c14", _T + "rank ids, authoritative shape re-arrangement (symbolic shape entries), leaf default, formats, mutability after every transform; stored coordinates inside shape and active range; rank id / active range of lazy results; attribute replacement on joining a tensor."),
  "C10": ("DESIGN.md#c10", _T + "operand snapshots (tree, rank lists, ids, shape, default, formats) unchanged by every value-returning and read-only operation, no shared Fiber/Payload/Rank/RankAttrs object, follow-up mutations invisible across the pair. Rendering itself is outside the claim."),
  "C09": ("DESIGN.md#c09", _T + "content of every transform result equals the image of the operand content under the stated coordinate map (merges reduce collisions), inverses restore equal tensors, results are well-formed tensors; swizzle on boxes with symbolic values incl. explicit zeros and all-zero rows."),
